@@ -49,6 +49,8 @@ ERR_PATTERNS = [
     ("dupname", re.compile(r"(?:Terminal|Rule) '(.*)' is already defined", re.S)),
     ("notimplemented", re.compile(r"(?:Parenthesized groups|Greedy repetitions|Multiple repetition modifiers) are not (?:yet )?implemented")),
     ("norules", re.compile(r"Grammar has no rules\.")),
+    # repo 3da879f (C16): the production number is the only datum
+    ("stopref", re.compile(r"STOP can't be referenced in production '(\d+):.*'\.", re.S)),
 ]
 
 
@@ -57,6 +59,8 @@ def classify_err(msg):
         m = rx.search(msg)
         if m:
             g = m.groups()
+            if kind == "stopref":
+                return ("err", kind, "=", g[0])
             name = g[0] if g else ""
             prod = g[1] if len(g) > 1 else "-"
             return ("err", kind, hx(name), prod)
@@ -240,6 +244,13 @@ def witness_cases():
         ("F9-group-rep", gt.Spec([R("S", [A([As(Ref(("G", "Ta Tb"), ("+", None))), T("Ta")])])], terms)),
         ("F9-greedy", gt.Spec([R("S", [A([As(Ref(("n", "Ta"), ("*!", None))), T("Tb")])])], terms)),
         ("F9-modifiers", gt.Spec([R("S", [A([As(Ref(("n", "Ta"), ("+", ["Tb", "Tc"])))])])], terms)),
+        ("kind-not-ident", gt.Spec([R("S", [A([T("Ta")], [("K", "A.b")])])], terms)),
+        ("kind-inherited-keyword", gt.Spec([R("S", [A([T("Ta")]), A([T("Tb")], [("K", "Ok1")])], [("K", "fn")])], terms)),
+        ("kind-string", gt.Spec([R("S", [A([T("Ta")], [("u", "kind", ("s", "x y"))])])], terms)),
+        ("stop-ref", gt.Spec([R("S", [A([T("Ta"), T("STOP")])])], terms)),
+        ("stop-sugar", gt.Spec([R("S", [A([T("Ta"), As(Ref(("n", "STOP"), ("*", None)))])])], terms)),
+        ("stop-sep", gt.Spec([R("S", [A([As(Ref(("n", "Ta"), ("+", ["STOP"])))])])], terms)),
+        ("stop-named", gt.Spec([R("S", [A([As(Ref(("n", "STOP")), "p", "x"), T("Ta")])])], terms)),
         ("dup-terminal", gt.Spec([R("S", [A([T("Ta")])])], terms[:1] + [gt.TermRule("Ta", ("S", "b"))])),
         ("dup-terminal-5", gt.Spec([R("S", [A([T("Ta")])])], [gt.TermRule("Ta", ("S", c)) for c in "abcde"])),
         ("self-helper", gt.Spec([R("S", [A([T("A1"), T("B")])]), R("A1", [A([T("Tb"), As(Ref(("n", "A"), ("+", None)))])]),
@@ -505,7 +516,7 @@ def evaluate(rep, cases, proofs_ok, findings, mode, tier):
                 and not legit_err(c.spec, c.impl):
             failures.append((c, "spurious-diagnostic", f"a valid grammar is rejected: {summary(c.impl)}"))
     # oracle (2): language
-    failures += language_oracle(rep, cases, 4 if tier == "quick" else 5, 40 if tier == "quick" else 400)
+    failures += language_oracle(rep, cases, 4 if tier == "quick" else 5, 120 if tier == "quick" else 600)
     # attribute failures to known findings
     real = []
     hit = {}
@@ -568,7 +579,7 @@ def run(rep, tier, seed):
         rep.oblige("cargo build harness/dyn against /repo", False, log[-1500:])
         rep.violation({"broken": "harness build", "log": log[-3000:]}, no_input=True)
         return
-    n = 700 if tier == "quick" else 8000
+    n = 6000 if tier == "quick" else 80000
     cases = witness_cases() + generate(rng, n)
     check(rep, cases, proofs_ok, tier)
 
